@@ -24,6 +24,10 @@ CHECKS = {
    technique="TLC invariants on the DSTerms term machine and the TFControl warm-up action property; exported behaviours executed on the real optimizers in every preconditioner representation, norm and direction judged against the code's own twin configurations and float64 closed forms of the graft step",
    text="TLC shows on DSTerms (momentum and weight decay off) that the emitted update is exactly one symbol: -lr(count) x S(s) (direction of the preconditioned gradient rescaled to the graft norm) from the start step on for a preconditioned parameter, -lr(count) x F(s) (the graft step) before it and always for skipped parameters, for all 6 graft types, start steps, skip, intervals, learning-rate coupling/schedule and both modes; TFControl's Warmup property gives the same for Tearfree incl. masked parameters. Each exported behaviour runs on the real code in full, sharded, int16-quantized, low-rank compressed (+r, -r), frequent-directions representations and on Tearfree Shampoo/Sketchy with SGD/RMSProp/AdaFactor grafts, dense and sparse (exact zeros) gradients: S(s) => |u| = |graft step| (1e-5) and cos(u, preconditioned gradient) = 1 (1e-5), u = 0 for a zero direction; F(s) => u = graft step (1e-6); the graft step itself vs its closed form (1e-5).",
    note="Trusted: TLC; direction oracle = same configuration with graft NONE (statistics/roots do not depend on the graft type), graft-step oracle = same configuration that never starts preconditioning (different XLA programs: 1e-6/1e-5 tolerances, measured 1e-7). AdaFactor's step is taken from optax (not code under test)."),
+ "C08": dict(level="model_checking", ref="4/C08",
+   technique="TLA+ dependency-set model Blocks (phases stats/roots/apply/graft/emit) checked by TLC incl. two deliberately leaky variants; TLC-enumerated cases replayed on the real Distributed Shampoo and Tearfree Shampoo: blocked tensor vs its blocks as separate leaves, common graft factor, companion independence",
+   text="TLC checks on the information-flow model that the direction of a block's update depends only on that block's gradient history and that nothing of another parameter reaches a parameter's update when cut-off and padding of the batched root routine are per block, and that both invariants are violated by the 'cut-off relative to the batch maximum' variant (Tearfree before its repair) and by leaky padding. TLC enumerates the replay cases (2, 3 (ragged where supported) and 2x2 blocks x 7 per-block gradient scale patterns over {1e-6,1,1e6} (1e-4/1e4 quick) x 4 companion kinds); for each, on both optimizers, the blocked tensor's un-grafted update equals block by block the update of the blocks optimised as separate leaves (1e-4 of the block's own max-abs), the grafted update is the un-grafted one times a single scalar, and adding a companion (vector, larger matrix, 1e6-scale leaf) leaves the target's update unchanged.",
+   note="Trusted: TLC; seeded normal gradients times the scale class; blocked and separate-leaf runs are different XLA programs (1e-4 tolerance, measured 1e-7). Bounds: block size 3, 4 steps, <= 4 blocks."),
 }
 
 NA_REASON = "check not built yet in this round (work in progress; see DESIGN.md section 9)"
